@@ -630,6 +630,25 @@ _fg = st.one_of(
 _bg = st.one_of(_valid_tok, _valid_tok, _near_tok, _mutated_tok, _alpha_tok, _any_text, _setting)
 _fuzz_case = st.fixed_dictionaries({"fg": _fg, "bg": _bg, "colors": st.sampled_from([1, 16, 88, 88, 256, 256, T, T])})
 
+# characters that str.isdigit() / isdecimal() / isalnum() / int() or case folding treat like ASCII digits or hex letters
+LOOKALIKES = ["\u00b2", "\u00b9", "\u0663", "\u0967", "\uff13", "\u2460", "\uff21", "\uff41", "\uff46", "\u00aa", "\u2170", "\u0131"]
+
+
+def lookalike_cases():
+    """every valid colour shape with one character replaced by a non-ASCII look-alike, every position, fg and bg,
+    every depth: all of these are outside the documented grammar"""
+    shapes = ["#000000", "#7fa0c0", "#000", "#fa8", "h10", "h100", "g50", "g#80", "g7"]
+    for shape in shapes:
+        for pos in range(1 if shape[0] in "#hg" else 0, len(shape)):
+            if shape.startswith("g#") and pos == 1:
+                continue
+            for ch in LOOKALIKES:
+                tok = shape[:pos] + ch + shape[pos + 1:]
+                for colors in (1, 16, 88, 256, T):
+                    yield {"fg": tok, "bg": "", "colors": colors}
+                    yield {"fg": "", "bg": tok, "colors": colors}
+
+
 # ---------------------------------------------------------------------------------------------
 # counters
 
@@ -679,6 +698,9 @@ def shard(ctx):
         return
     ctx.sweep("true", true_cases(ctx), nontrivial=None, classify=_classify_true, stride=False,
               exhaustive_name="all 2**24 #rrggbb values at 2**24, 256 and 88" if full else None)
+    if ctx.failure is None:
+        ctx.sweep("fuzz", lookalike_cases(), nontrivial=lambda c: True, classify=_classify("fuzz"),
+                  exhaustive_name="colour shapes with one non-ASCII digit / letter look-alike at every position")
     if ctx.failure is None:
         ctx.given("fuzz", _fuzz_case, ctx.scale(800, 40000), nontrivial=_nontrivial, classify=_classify("fuzz"))
 
